@@ -446,7 +446,8 @@ def _segment(draw):
         f = list(draw(st.sampled_from([("short", 512), ("cut-chunked", 512), ("short", 0)])))
         return [f] * n + [draw(_OK)]
     if kind == "exhaust":
-        return [["short", draw(st.integers(0, 1023))]] * 11
+        # eleven retriable failures: ten of one kind, the last (the one that must raise) of any retriable kind - a stalled read included
+        return [["short", draw(st.integers(0, 1023))]] * 10 + [draw(st.sampled_from([["short", 512], ["short", 0], ["cut-chunked", 512], ["stall", 512], ["stall", 0]]))]
     if kind == "status":
         return faults(0, 2) + [["status", draw(st.sampled_from([403, 404, 500, 503]))]]
     if kind == "corrupt":
